@@ -12,7 +12,8 @@ LEAN_MODULE = 'Proofs.C09'
 THEOREMS = ['Fsic.C09.' + n for n in [
     'step_ext', 'inv_init', 'inv_step_false_at_witness', 'inv_step_partial', 'inv_history_partial', 'inv_step',
     'inv_history', 'dtype_step', 'dtype_history', 'index_step_prefix', 'failed_assign_unchanged',
-    'failed_add_variable_unchanged', 'add_variable_refuses_taken_key', 'conversion_failure_may_write', 'values_is_stack', 'size_eq',
+    'failed_add_variable_unchanged', 'add_variable_refuses_taken_key', 'no_clash_init', 'no_clash_step',
+    'no_clash_history', 'conversion_failure_may_write', 'values_is_stack', 'size_eq',
     'size_counts_values', 'strict_no_new_attribute', 'strict_existing_names_work', 'strict_add_variable_works',
     'strict_reports_closest', 'strict_values_setter_works', 'strict_values_setter_blocked_at_witness']]
 RULE = ('histories of public operations {add_variable, add_attribute, attribute set, name-key set, positional set, '
@@ -42,7 +43,7 @@ ASSUMPTIONS = ['operands stay inside the alphabet above', 'variable and attribut
                'element count of values" is applied to the linker\'s own part']
 
 META = {
-    "text": "Theorems over the container model M6 for every store, operation, operand and every configuration of the three reflected behaviour switches (Cfg: whole-shape test in __setattr__, names exempt from the strict guard, add_variable checking the attribute list, add_variable checking the storage key '_' + name against the instance dict — whose key set is part of the model state — probed on the code on every run, harness/reflect_container.py): every operation other than a whole-series assignment of a rectangular nested list whose outer length equals the span keeps every series one-dimensional with one element per period (inv_step_partial, hence every history: inv_history_partial, induction on the operation list), and with the whole-shape test every operation does, with no guard (inv_step, inv_history — in force exactly when the reflected switch says the code has that test); the dtype tag of an existing series never changes under any operation or history, without exception (dtype_step, dtype_history); failed single-variable assignments other than element-conversion failures leave the store unchanged; values is the names-by-periods stack in declaration order and size its element count; under strict no assignment extends the attribute list, existing names and add_variable behave as without strict, and a unique closest name is reported. The full invariant is FALSE on the code as it stands: obj.A = [[1,2],[3,4],[5,6]] on a 3-period span makes A two-dimensional (negation proved at that witness, reproduced on the real code, listed as an open known finding). The model is tied to VectorContainer/BaseModel/BaseLinker by comparing outcome class, index, attributes, size, nbytes, values shape/dtype and every element of every series after every operation of exhaustive short and random long histories.",
+    "text": "Theorems over the container model M6 for every store, operation, operand and every configuration of the three reflected behaviour switches (Cfg: whole-shape test in __setattr__, names exempt from the strict guard, add_variable checking the attribute list, add_variable checking the storage key '_' + name and add_attribute / new-attribute assignment checking the name against the instance dict — whose key set is part of the model state; with both checks no key is ever claimed twice: no_clash_step / no_clash_history — probed on the code on every run, harness/reflect_container.py): every operation other than a whole-series assignment of a rectangular nested list whose outer length equals the span keeps every series one-dimensional with one element per period (inv_step_partial, hence every history: inv_history_partial, induction on the operation list), and with the whole-shape test every operation does, with no guard (inv_step, inv_history — in force exactly when the reflected switch says the code has that test); the dtype tag of an existing series never changes under any operation or history, without exception (dtype_step, dtype_history); failed single-variable assignments other than element-conversion failures leave the store unchanged; values is the names-by-periods stack in declaration order and size its element count; under strict no assignment extends the attribute list, existing names and add_variable behave as without strict, and a unique closest name is reported. The full invariant is FALSE on the code as it stands: obj.A = [[1,2],[3,4],[5,6]] on a 3-period span makes A two-dimensional (negation proved at that witness, reproduced on the real code, listed as an open known finding). The model is tied to VectorContainer/BaseModel/BaseLinker by comparing outcome class, index, attributes, size, nbytes, values shape/dtype and every element of every series after every operation of exhaustive short and random long histories.",
     "design_ref": "DESIGN.md §5 M6, §6 C09, §7 row 6",
     "note": "Trusted: Lean kernel; axioms propext/Classical.choice/Quot.sound; the correspondence harness; NumPy's conversion/broadcast behaviour is modelled only for the operand alphabet and validated on generated operands, difflib's notion of closest name and the initial state of model/linker instances are inputs. The invariant is claimed only outside the known finding (nested list with outer length = span length assigned to a whole series).",
     "technique": "Lean 4 proof (invariant + induction over histories) + differential correspondence check after every operation"
@@ -451,6 +452,9 @@ class Oracle:
         why = misfit(item, n, before)
         if why is None and op == 'addVariable' and '_' + item['name'] in self.prev_internal['keys']:
             why = 'storage-key-taken'       # must raise and leave everything unchanged
+        if (why is None and op in ('addAttribute', 'setAttr') and item['name'].startswith('_')
+                and item['name'][1:] in before):
+            why = 'storage-key-taken'       # the name is the storage key of a variable
         internal = cc.internal_state(obj)
         # a (name, label) / (name, slice) assignment whose name is not a variable but happens to be one of the
         # container's own `__dict__` entries (without the underscore)
